@@ -235,7 +235,7 @@ Proof.
     destruct (f_abs m fin) eqn:Hf.
     - lia.
     - destruct (Nat.lt_ge_cases (length tr) cap) as [Hlt|Hge].
-      + rewrite (Hstop Hlt) in Hf. discriminate.
+      + specialize (Hstop Hlt). congruence.
       + lia. }
   repeat split; auto.
   unfold t_states at 1. simpl fst. simpl snd. rewrite app_length, map_length. simpl. lia.
@@ -348,3 +348,137 @@ Proof.
 Qed.
 
 End POMDP.
+
+(* ------------------------------------------------------------------ discounted returns *)
+Require Import Qpower.
+
+Lemma qsum_ext {A} (f h : A -> Q) l :
+  (forall x, In x l -> f x == h x) -> qsum (map f l) == qsum (map h l).
+Proof.
+  induction l as [|a l IH]; intros H; simpl; [reflexivity|].
+  rewrite (H a (or_introl eq_refl)), IH; [reflexivity|]. intros x Hx. apply H. right. exact Hx.
+Qed.
+
+Lemma qsum_scale {A} (c : Q) (f : A -> Q) l :
+  qsum (map (fun x => c * f x) l) == c * qsum (map f l).
+Proof. induction l as [|a l IH]; simpl; [ring|]. rewrite IH. ring. Qed.
+
+Lemma Qpower_succ (g : Q) (k : nat) : g ^ Z.of_nat (S k) == g * g ^ Z.of_nat k.
+Proof.
+  replace (Z.of_nat (S k)) with (1 + Z.of_nat k)%Z by lia.
+  rewrite Qpower_plus' by lia. simpl. reflexivity.
+Qed.
+
+Definition csum (g : Q) (i : nat) (rs : list Q) : Q :=
+  qsum (map (fun j => disc_entry g i j * nth j rs 0) (seq 0 (length rs))).
+
+Lemma calc_returns_unfold rs g :
+  calc_returns rs g = map (fun i => csum g i rs) (seq 0 (length rs)).
+Proof. reflexivity. Qed.
+
+Lemma csum_0_cons g r rs : csum g 0 (r :: rs) == r + g * csum g 0 rs.
+Proof.
+  unfold csum. simpl length. rewrite <- cons_seq, <- seq_shift. simpl map at 1. simpl qsum.
+  rewrite map_map.
+  rewrite (qsum_ext _ (fun j => g * (disc_entry g 0 j * nth j rs 0))).
+  - rewrite qsum_scale. unfold disc_entry at 1. simpl. ring.
+  - intros j _. unfold disc_entry. simpl Nat.leb. cbv iota.
+    rewrite !Nat.sub_0_r. rewrite Qpower_succ. simpl nth. ring.
+Qed.
+
+Lemma csum_S_cons g i r rs : csum g (S i) (r :: rs) == csum g i rs.
+Proof.
+  unfold csum. simpl length. rewrite <- cons_seq, <- seq_shift. simpl map at 1. simpl qsum.
+  rewrite map_map. unfold disc_entry at 1. simpl Nat.leb. cbv iota.
+  rewrite Qmult_0_l, Qplus_0_l. apply qsum_ext. intros j _. reflexivity.
+Qed.
+
+(* the defining backward recursion *)
+Fixpoint brec (rs : list Q) (g : Q) : list Q :=
+  match rs with
+  | [] => []
+  | r :: t => (r + g * hd 0 (brec t g)) :: brec t g
+  end.
+
+Lemma Forall2_Qeq_refl l : Forall2 Qeq l l.
+Proof. induction l; constructor; [reflexivity | assumption]. Qed.
+
+Lemma Forall2_Qeq_trans l1 l2 l3 : Forall2 Qeq l1 l2 -> Forall2 Qeq l2 l3 -> Forall2 Qeq l1 l3.
+Proof.
+  intros H. revert l3. induction H; intros l3 H3; inversion H3; subst; constructor.
+  - etransitivity; eassumption.
+  - auto.
+Qed.
+
+Lemma Forall2_Qeq_map {A} (f h : A -> Q) l :
+  (forall x, f x == h x) -> Forall2 Qeq (map f l) (map h l).
+Proof. intros H. induction l; simpl; constructor; auto. Qed.
+
+Lemma Forall2_Qeq_hd l l' : Forall2 Qeq l l' -> hd 0 l == hd 0 l'.
+Proof. intros H. destruct H; simpl; [reflexivity | assumption]. Qed.
+
+Lemma Forall2_Qeq_nth l l' : Forall2 Qeq l l' -> forall i, nth i l 0 == nth i l' 0.
+Proof.
+  induction 1; intros i; destruct i; simpl; try reflexivity; auto.
+Qed.
+
+Lemma Forall2_Qeq_length l l' : Forall2 Qeq l l' -> length l = length l'.
+Proof. induction 1; simpl; congruence. Qed.
+
+Lemma hd_calc_returns rs g : hd 0 (calc_returns rs g) == csum g 0 rs.
+Proof.
+  rewrite calc_returns_unfold. destruct rs as [|r t]; simpl length.
+  - reflexivity.
+  - rewrite <- cons_seq. reflexivity.
+Qed.
+
+Lemma calc_returns_cons r rs g :
+  Forall2 Qeq (calc_returns (r :: rs) g) ((r + g * hd 0 (calc_returns rs g)) :: calc_returns rs g).
+Proof.
+  rewrite (calc_returns_unfold (r :: rs)). simpl length. rewrite <- cons_seq, <- seq_shift.
+  simpl map at 1. rewrite map_map. constructor.
+  - rewrite csum_0_cons, hd_calc_returns. reflexivity.
+  - rewrite calc_returns_unfold. apply Forall2_Qeq_map. intros i. apply csum_S_cons.
+Qed.
+
+Lemma calc_returns_brec rs g : Forall2 Qeq (calc_returns rs g) (brec rs g).
+Proof.
+  induction rs as [|r t IH].
+  - constructor.
+  - eapply Forall2_Qeq_trans; [apply calc_returns_cons|]. simpl. constructor; [|exact IH].
+    rewrite (Forall2_Qeq_hd _ _ IH). reflexivity.
+Qed.
+
+Lemma brec_nth rs g : forall i,
+  (S i < length rs)%nat -> nth i (brec rs g) 0 == nth i rs 0 + g * nth (S i) (brec rs g) 0.
+Proof.
+  induction rs as [|r t IH]; intros i Hi; simpl in Hi; [lia|].
+  destruct i as [|i].
+  - simpl. destruct t as [|r' t']; [simpl in Hi; lia|]. simpl. reflexivity.
+  - change (nth (S i) (brec (r :: t) g) 0) with (nth i (brec t g) 0).
+    change (nth (S (S i)) (brec (r :: t) g) 0) with (nth (S i) (brec t g) 0).
+    change (nth (S i) (r :: t) 0) with (nth i t 0). apply IH. lia.
+Qed.
+
+Lemma brec_last rs g : forall i, length rs = S i -> nth i (brec rs g) 0 == nth i rs 0.
+Proof.
+  induction rs as [|r t IH]; intros i Hi; simpl in Hi; [lia|].
+  destruct i as [|i].
+  - destruct t; [|simpl in Hi; lia]. simpl. ring.
+  - change (nth (S i) (brec (r :: t) g) 0) with (nth i (brec t g) 0).
+    change (nth (S i) (r :: t) 0) with (nth i t 0). apply IH. lia.
+Qed.
+
+(* Policy.calc_returns = the backward recursion  ret_i = r_i + g * ret_{i+1},  ret_last = r_last *)
+Theorem calc_returns_rec rs g :
+  length (calc_returns rs g) = length rs /\
+  (forall i, (S i < length rs)%nat ->
+     nth i (calc_returns rs g) 0 == nth i rs 0 + g * nth (S i) (calc_returns rs g) 0) /\
+  (forall i, length rs = S i -> nth i (calc_returns rs g) 0 == nth i rs 0).
+Proof.
+  pose proof (calc_returns_brec rs g) as H.
+  split; [|split].
+  - rewrite calc_returns_unfold, map_length, seq_length. reflexivity.
+  - intros i Hi. rewrite !(Forall2_Qeq_nth _ _ H). apply brec_nth. exact Hi.
+  - intros i Hi. rewrite (Forall2_Qeq_nth _ _ H). apply brec_last. exact Hi.
+Qed.
